@@ -1313,10 +1313,11 @@ public:
                            traits, allow_duplicates, allocator_type>;
 
     public:
-        //! Function call "less"-operator resulting in true if x < y.
+        //! Function call "less"-operator resulting in true if x < y: compares
+        //! the keys of the two values (the values themselves for the sets).
         bool operator()(const value_type& x, const value_type& y) const
         {
-            return key_comp(x.first, y.first);
+            return key_comp(key_of_value::get(x), key_of_value::get(y));
         }
     };
 
